@@ -25,6 +25,14 @@ Line protocol for C14 (stateless: one case per line; see harness/c14.py).
   otff <levels> | rows                   -> matrix
   untr <vars> | rows                     -> matrix  (per-variable form `untransformByVar`, flattened)
   firstocc | rows                        -> matrix  (database keys of the given samples)
+  sess int0=<0|1> vars=<vars> || <op> || <op> ...      one design-space object + one library object
+      ops: add <var> | rm <name> | lb <name> <olist> | ub <name> <olist> | ren <old> <new> |
+           keep <names> | fdim <name> <dims> | setint <0|1> | setval <ratlist> | q <ratlist> | newlib |
+           doe mode=.. hyper=.. custom=.. ok=.. uses=.. seed=.. | <row> | <row> ...   (as above)
+      -> one answer per op joined by ` || `: the observable state after an edit
+         (names=.. idx=.. int=<bits> lb=.. ub=.. intn=<0|1>), `x=<vector> intn=..` for q, `lseed=0` for
+         newlib, the `doe` answer for a DOE.  The session is run with the cache of normalisation data as
+         it exists in the code (`Session.run`), proved equal to the cache-free specification.
 var = name:f|i:lb:ub:val (C02 syntax). Matrices are printed `r1;r2;...` (`[]` when empty).
 -/
 
@@ -92,6 +100,76 @@ def doeAnswer (head : List String) (rows : Option Matrix) : String :=
     | _, _, _ => "bad-op"
   | _, _, _, _, _, _, _, _, _ => "bad-op"
 
+/-- Split at the tokens `||`. -/
+def splitBarBar (toks : List String) : List (List String) :=
+  let rec go (ts : List String) (cur : List String) (acc : List (List String)) : List (List String) :=
+    match ts with
+    | [] => (cur.reverse :: acc).reverse
+    | "||" :: r => go r [] (cur.reverse :: acc)
+    | t :: r => go r (t :: cur) acc
+  go toks [] []
+
+def stateStr (d : DS) : String :=
+  let idx := if d.vars.isEmpty then "[]" else
+    ",".intercalate (d.ranges.map (fun r => s!"{r.1}:{r.2.1}:{r.2.2}"))
+  s!"names={showStrList d.names} idx={idx} int={bitsStr d.intMask} lb={showOList d.flatLb} ub={showOList d.flatUb} intn={if d.intNorm then 1 else 0}"
+
+def parseSessOp (toks : List String) : Option SOp :=
+  match splitBar toks with
+  | [] => none
+  | head :: rest =>
+    match head with
+    | ["add", v] => (parseVar? v).map (fun v => .edit (.add v))
+    | ["rm", n] => some (.edit (.remove n))
+    | ["lb", n, b] => (parseOList? b).map (fun b => .edit (.setLb n b))
+    | ["ub", n, b] => (parseOList? b).map (fun b => .edit (.setUb n b))
+    | ["ren", o, n] => some (.edit (.rename o n))
+    | ["keep", ns] => some (.edit (.filter (parseStrList ns)))
+    | ["fdim", n, dims] => (parseNatList? dims).map (fun ds => .edit (.filterDim n ds))
+    | ["setint", b] => some (.edit (.intNorm (b == "1")))
+    | ["setval", x] => (parseRatList? x).map (fun x => .edit (.setArr x))
+    | ["q", u] => (parseRatList? u).map .query
+    | ["newlib"] => some .newLib
+    | "doe" :: kvs =>
+      match parseRows rest, kv kvs "mode", kv kvs "hyper", kv kvs "custom", kv kvs "ok", kv kvs "uses", kv kvs "seed" with
+      | some rows, some mode, some hyper, some custom, some ok, some uses, some seed =>
+        match (if seed = "_" then some none else (parseInt? seed).map some) with
+        | some sd =>
+          some (.doe (mode == "exec") {
+            unitSampling := mode == "unit", useUnitHypercube := hyper == "1", custom := custom == "1",
+            settingsOk := ok == "1", usesSeed := uses == "1", seed := sd, sampler := fun _ => rows })
+        | none => none
+      | _, _, _, _, _, _, _ => none
+    | _ => none
+
+def sessOut (s : Session) (op : SOp) (o : SOut) : String :=
+  match op, o with
+  | .edit _, _ => stateStr s.cds.ds
+  | .query _, .vec x => s!"x={showRatList x} intn={if s.cds.ds.intNorm then 1 else 0}"
+  | .newLib, _ => s!"lseed={s.lib.seeder.defaultSeed}"
+  | .doe _ _, .doe res =>
+    let (r, x) := match res with
+      | .ok m => ("ok", m)
+      | .error e => (failStr e, [])
+    s!"res={r} int={if s.cds.ds.intNorm then 1 else 0} lseed={s.lib.seeder.defaultSeed} n={x.length} X={showMatrix x} U={showMatrix s.lib.unitSamples} S={showMatrix s.lib.samples}"
+  | _, _ => "bad-out"
+
+def sessAnswer (head : List String) (opGroups : List (List String)) : String :=
+  match kv head "int0", kv head "vars" with
+  | some int0, some vars =>
+    match parseVars? vars, opGroups.mapM parseSessOp with
+    | some vs, some ops =>
+      let s0 : Session := { cds := { ds := { vars := vs, intNorm := int0 == "1" } } }
+      let rec go (s : Session) (ops : List SOp) (acc : List String) : List String :=
+        match ops with
+        | [] => acc.reverse
+        | op :: r =>
+          let (s1, o) := s.step 0 op
+          go s1 r (sessOut s1 op o :: acc)
+      " || ".intercalate (go s0 ops [])
+    | _, _ => "bad-op"
+  | _, _ => "bad-op"
+
 def parseSeedReqs (s : String) : Option (List (Option Int)) :=
   if s = "[]" then some [] else
   (s.splitOn ",").mapM (fun t => if t = "_" then some none else (parseInt? t).map some)
@@ -109,7 +187,13 @@ def countAnswer (algo : String) (n d : Nat) (flag : String) : String :=
   | _ => "bad-op"
 
 def answer (line : String) : String :=
-  let groups := splitBar (tokens line)
+  let toks := tokens line
+  if toks.head? == some "sess" then
+    match splitBarBar toks with
+    | ("sess" :: head) :: ops => sessAnswer head ops
+    | _ => "bad-op"
+  else
+  let groups := splitBar toks
   match groups with
   | [] => "bad-op"
   | head :: rest =>
